@@ -4178,6 +4178,26 @@ class LockableIniFileStore(TransportIniFileStore):
         """
         super().save()
 
+    def save_changes(self):
+        """Save the pending changes, holding the lock from re-load to write.
+
+        The changes are applied to a content re-read from the persistent
+        storage: that read has to happen under the lock too, otherwise a
+        change saved by another process between the read and the write is
+        lost.
+        """
+        if not self.is_loaded():
+            # Nothing to save
+            return
+        if not self._need_saving():
+            return
+        with self.lock_write():
+            # Preserve the current version
+            dirty_sections = self.dirty_sections.copy()
+            self.apply_changes(dirty_sections)
+            # Save to the persistent storage
+            self.save_without_locking()
+
 
 # FIXME: global, breezy, shouldn't that be 'user' instead or even
 # 'user_defaults' as opposed to 'user_overrides', 'system_defaults'
